@@ -6,6 +6,12 @@ LEVEL = "proof"
 REPLAY = "replay/c20.py"
 
 
+def extra_checks(tier, seed, repo_root):
+    """bounded floating-point side obligations (native execution of the real module at extreme scales)"""
+    from contracts import pchip_fp
+    return pchip_fp.run("C20", tier, repo_root)
+
+
 def build(reg):
     pchip.register(reg, "C20")
     M = pchip.MOD
@@ -14,6 +20,11 @@ def build(reg):
                  f"{M}:PCHIP1D.__call__"],
         lemmas=pchip.LEMMAS,
         not_decided=[],
+        bounded=["PCHIP1D[float]/fp/*: the proof is over the reals (A1); a rewrite that is an identity there can over- or "
+                 "underflow in floats. The real module is run natively on 5 data sets scaled by powers of two across the "
+                 "exponent range (float64: 2**-520 .. 2**520, float32: 2**-70 .. 2**70; 80 runs, more in the thorough "
+                 "tier) and must stay finite, homogeneous (P[c y]/c == P[y]) and reproduce the knots. Bounded: labelled "
+                 "bounded-float in the evidence, never counted as proved"],
         trusted=["torch.searchsorted returns the insertion index of a sorted sequence (A4)",
                  "element-wise torch semantics of the tensor subset used (A3); floats as reals (A1)"],
     )
